@@ -384,8 +384,10 @@ class DocstringParser(AbstractDocstringParser):
     def _get_griffe_node(self, qname: str) -> Object | None:
         node_qname_parts = qname.split(".")
         griffe_node = self.griffe_build
-        for part in node_qname_parts:
-            if griffe_node.name == part:
+        for i, part in enumerate(node_qname_parts):
+            # The first part is the package itself. Only that part is skipped, a module, class or function can have the
+            # same name as its parent.
+            if i == 0 and griffe_node.name == part:
                 continue
 
             if part in griffe_node.modules:
